@@ -17,6 +17,7 @@ import (
 	"strings"
 
 	"github.com/evolbioinfo/goalign/align"
+	"github.com/evolbioinfo/goalign/io/fasta"
 )
 
 type Row struct {
@@ -469,6 +470,30 @@ func (h *heapRun) apply(st Step, ret map[string]interface{}) error {
 		ret["new"] = len(h.objs)
 		return nil
 	}
+	if st.Op == "NewFromFasta" {
+		// the rows written as a FASTA file and read by the real parser; what it returns is copied into an alignment of
+		// the declared alphabet (the alphabet the parser detects is not part of the question)
+		var buf strings.Builder
+		for _, r := range rowsArg(a["rows"]) {
+			fmt.Fprintf(&buf, ">%s\n%s\n", string(i2b(r.N)), string(i2b(r.S)))
+		}
+		parsed, err := fasta.NewParser(strings.NewReader(buf.String())).Parse()
+		if err != nil {
+			return err
+		}
+		al := align.NewAlign(ai(a, "al"))
+		parsed.IterateChar(func(name string, s []uint8) bool {
+			if e := al.AddSequenceChar(name, append([]byte{}, s...), ""); e != nil {
+				err = e
+			}
+			return false
+		})
+		if err != nil {
+			return err
+		}
+		ret["new"] = h.addAlign(al)
+		return nil
+	}
 	o := h.get(st.Recv)
 	sb := o.sb
 	switch st.Op {
@@ -496,6 +521,9 @@ func (h *heapRun) apply(st Step, ret map[string]interface{}) error {
 		ret["map"] = mapPairs(m)
 	case "TrimNames":
 		m := map[string]string{}
+		if pv, ok := a["prev"]; ok { // a name map that already served another alignment
+			m = mkmap(pv.([]interface{}))
+		}
 		err := sb.TrimNames(m, ai(a, "size"))
 		ret["map"] = mapPairs(m)
 		return err
